@@ -54,6 +54,37 @@ func zeroPad(lit string, n int) string {
 	return body
 }
 
+// preciseFloats is the float profile "precise": the same tokens stand for values that need
+// the full float64 precision (more than 7 significant digits, 0.1+0.2, tiny and huge
+// magnitudes, the smallest denormal), written in the grammar's plain decimal notation.
+var preciseFloats = map[string]float64{
+	"f1": 3.14159265358979,
+	"f2": -99.999999,
+	"f3": 123456789, // written "123456789." — a float with an integral value
+	"f4": -0.30000000000000004,
+	"f5": math.MaxFloat64,
+	"f6": -2.5e-10,
+	"f7": 123456789.125,
+	"f8": 5e-324,
+}
+
+// float returns the literal text and the value of a float token under the profile.
+func (p Profile) float(tok string) (string, float64) {
+	if p.Float != "precise" {
+		e := floatTable[tok]
+		return e.text, e.val
+	}
+	v := preciseFloats[tok]
+	text := strconv.FormatFloat(v, 'f', -1, 64)
+	switch {
+	case !strings.Contains(text, "."):
+		text += "." // the grammar reads "123." as a float
+	case strings.HasPrefix(text, "-0."):
+		text = "-" + text[2:] // "-.3": the rule without an integer part
+	}
+	return text, v
+}
+
 // floatTable gives the literal text and the value of the spec's float tokens.
 var floatTable = map[string]struct {
 	text string
@@ -66,6 +97,7 @@ var floatTable = map[string]struct {
 	"f5": {"", 1e21},
 	"f6": {"", 1e-7},
 	"f7": {"", -2},
+	"f8": {"", 0.5},
 }
 
 // Profile selects the concretisation of one replay.
@@ -78,6 +110,8 @@ type Profile struct {
 	// written with leading zeros ("010", "-007", "00", "01.5"). Positional column/row
 	// ids and the bounds of `lo < f < hi` are not (the grammar does not admit it there).
 	Zeros bool `json:"zeros,omitempty"`
+	// Float: "" (simple values: 1.5, -0.25, 3., -.5, 1e21, 1e-7, -2) | "precise"
+	Float string `json:"float,omitempty"`
 }
 
 func (p Profile) str(tok string) string {
@@ -261,10 +295,11 @@ func (pr *printer) value(w val) string {
 		}
 		return lit
 	case "float":
+		text, _ := pr.p.float(w["t"].(string))
 		if pr.p.Zeros && !pr.positional {
-			return zeroPad(floatTable[w["t"].(string)].text, 1+pr.rng.Intn(2))
+			return zeroPad(text, 1+pr.rng.Intn(2))
 		}
-		return floatTable[w["t"].(string)].text
+		return text
 	case "bool":
 		if w["b"].(bool) {
 			return "true"
